@@ -41,6 +41,7 @@ PARAMS = {
     "flip": lambda a: (jnp.clip(_sig(a), 0.05, 0.95),),
     "categorical": lambda a: (jnp.stack([0.0 * a, jnp.clip(a, -2, 2), -jnp.clip(a, -2, 2)]),),
     "poisson": lambda a: (1.0 + _sig(a),),
+    "normal0": lambda a: (0.0 * a, 1.0),  # parameters independent of the history (independence tests)
     # tracers
     "keyprobe": lambda a: (a,),
     "echo": lambda a: (a,),
@@ -91,6 +92,7 @@ echo = tfp_distribution(lambda loc: _Echo(loc), name="Echo")
 
 def dist_table():
     t = {n: getattr(genjax, n) for n in REAL_CONT + REAL_DISC}
+    t["normal0"] = genjax.normal
     t["keyprobe"] = keyprobe
     t["echo"] = echo
     return t
@@ -100,7 +102,7 @@ def dist_table():
 
 
 def gen_pf(rng, depth=2, dists=None, max_len=3, allow=("site", "scan", "cond", "mvmap", "nseed", "gen"),
-           _top=True, in_mv=False):
+           _top=True, in_mv=False, nseed_in_loops=True, _in_loop=False):
     """in_mv: inside a modular_vmap body. Constructs whose *layout* under modular_vmap is C08's
     business (sample_shape sites, repeat inside lanes, event-shaped parameters with density sites)
     are not generated there, so that C06/C07 cases are functions the interpreters accept."""
@@ -110,7 +112,7 @@ def gen_pf(rng, depth=2, dists=None, max_len=3, allow=("site", "scan", "cond", "
     for _ in range(n):
         kinds = ["site", "site"]
         if depth > 0:
-            kinds += [k for k in allow if k != "site"]
+            kinds += [k for k in allow if k != "site" and not (k == "nseed" and _in_loop and not nseed_in_loops)]
         k = rng.choice(kinds)
         if k == "site":
             d = rng.choice(dists)
@@ -123,9 +125,9 @@ def gen_pf(rng, depth=2, dists=None, max_len=3, allow=("site", "scan", "cond", "
             out.append(st)
         elif k == "scan":
             out.append({"k": "scan", "n": rng.randint(1, 4),
-                        "body": gen_pf(rng, depth - 1, dists, 2, allow, False, in_mv)})
+                        "body": gen_pf(rng, depth - 1, dists, 2, allow, False, in_mv, nseed_in_loops, True)})
         elif k == "cond":
-            a = gen_pf(rng, depth - 1, dists, 2, [x for x in allow if x not in ("nseed",)], False, in_mv)
+            a = gen_pf(rng, depth - 1, dists, 2, [x for x in allow if x not in ("nseed",)], False, in_mv, nseed_in_loops, _in_loop)
             b = _vary(rng, a, dists)
             out.append({"k": "cond", "thr": round(rng.uniform(-0.3, 0.3), 2), "a": a, "b": b})
         elif k == "mvmap":
@@ -133,7 +135,7 @@ def gen_pf(rng, depth=2, dists=None, max_len=3, allow=("site", "scan", "cond", "
                         "body": gen_pf(rng, depth - 1, dists, 2, [x for x in allow if x != "nseed"], False, True)})
         elif k == "nseed":
             out.append({"k": "nseed", "key": rng.randint(1000, 10**6),
-                        "body": gen_pf(rng, depth - 1, dists, 2, allow, False, in_mv)})
+                        "body": gen_pf(rng, depth - 1, dists, 2, allow, False, in_mv, nseed_in_loops, _in_loop)})
         elif k == "gen":
             gd = rng.choice([d for d in dists if not (in_mv and d == "categorical")] or dists)
             out.append({"k": "gen", "n": rng.randint(1, 3), "d": gd,
